@@ -20,7 +20,8 @@ pub fn is_name_valid(s: &str) -> bool {
         log::info!("file name is empty");
         return false;
     }
-    if s.len()>30 {
+    // hex escapes stand for one byte each: the limit applies to the bytes
+    if crate::escaped_ascii_to_bytes(s, true).len()>30 {
         log::info!("file name too long, max 30");
         return false;
     }
@@ -34,11 +35,11 @@ pub fn file_name_to_string(fname: [u8;30]) -> String {
 }
 
 pub fn string_to_file_name(s: &str) -> [u8;30] {
-    if s.len()> 30 {
-        panic!("DOS filename was loo long");
-    }
     let mut ans: [u8;30] = [0xa0;30]; // fill with negative spaces
     let unescaped = crate::escaped_ascii_to_bytes(s, true);
+    if unescaped.len()> 30 {
+        log::warn!("DOS filename was too long, truncating");
+    }
     for i in 0..30 {
         if i<unescaped.len() {
             ans[i] = unescaped[i];
